@@ -99,6 +99,10 @@ SUPERSEDED = {
 }
 
 
+# round 4: behaviour-preserving refactorings (seeds h, i) — what the first run of the check said about them where it was not silent
+BENIGN_FIRST = {}
+
+
 def sh(cmd, **kw):
     return subprocess.run(cmd, shell=True, capture_output=True, text=True, **kw)
 
@@ -171,9 +175,12 @@ def main():
             open(os.path.join(dst, "patch.diff"), "w").write(cur)
         if sid in SUPERSEDED:
             status = "superseded: " + SUPERSEDED[sid]
+        kind = meta_in.get("kind") or "breaking"
+        benign = kind.startswith("benign")
         meta = {
             "seed": sid,
             "property": pid,
+            "kind": "benign-refactoring" if benign else "breaking",
             "summary": meta_in.get("summary") or meta_in.get("what") or meta_in.get("title"),
             "mechanism": meta_in.get("mechanism"),
             "needs_to_manifest": meta_in.get("needs_to_manifest"),
@@ -190,11 +197,19 @@ def main():
             "agent_reported_tests": meta_in.get("tests_run"),
             "check": {"quick_rc": rc, "rules_fired": rules, "cross_property": CROSS.get(sid)},
             "detected": bool(rules),
+            "expected": "silent: exit 0, no VIOLATION line" if benign else "VIOLATION",
+            "false_alarm": bool(benign and rc == 1),
+            "refused": bool(rc == 2),
             "initially_missed": sid in MISSED_FIRST,
             "initially_imprecise": sid in IMPRECISE_FIRST,
             "refused_only": sid in REFUSED_ONLY,
             "history": MISSED_FIRST.get(sid) or IMPRECISE_FIRST.get(sid) or REFUSED_ONLY.get(sid) or "caught by the first version of the check",
         }
+        if benign:
+            meta["history"] = BENIGN_FIRST.get(sid) or "silent on the first run of the check"
+            meta["initially_alarmed_or_refused"] = sid in BENIGN_FIRST
+            meta["confirmed_by_me"]["how"] = ("tools/verify_seed.sh: scratch git worktree of /repo with the refactoring applied; the tests the agent named rebuilt and run against it; "
+                                              "the agent's equivalence argument (equivalence.md) read against the diff; worktree removed afterwards")
         json.dump(meta, open(os.path.join(dst, "meta.json"), "w"), indent=1)
         summary.append((sid, status.split(":")[0], rc, sorted(rules)))
         print(sid, status.split(":")[0], "rc=%s" % rc, sorted(rules))
